@@ -241,5 +241,457 @@ def join_rightOuter (nl0 nl1 nr0 nr1 : String) (bl0 bl1 br0 br1 : B) : List (Str
         else
           [(nr0, br0), (nr1, br1), (nl0, bl0), (nl1, bl1)]
 
+/-- `_join_channels('none', [L0, L1], [R0, R1])` (source sha256 ac659b0e427702f5…): `none` = `InvalidWorkspaceOperation` -/
+def join_chan_none (nl0 nl1 nr0 nr1 : String) (bl0 bl1 br0 br1 : B) : Option (List (String × B)) :=
+  if nl0 = nr0 then
+    none
+  else
+    if nl1 = nr0 then
+      if nl0 = nr1 then
+        none
+      else
+        if nl0 = nl1 then
+          some [(nl0, bl0), (nl1, bl1), (nr0, br0), (nr1, br1)]
+        else
+          none
+    else
+      if nl0 = nr1 then
+        none
+      else
+        if nl1 = nr1 then
+          if nl0 = nl1 then
+            some [(nl0, bl0), (nl1, bl1), (nr0, br0), (nr1, br1)]
+          else
+            none
+        else
+          some [(nl0, bl0), (nl1, bl1), (nr0, br0), (nr1, br1)]
+
+/-- `_join_channels('outer', [L0, L1], [R0, R1])` (source sha256 ac659b0e427702f5…): `none` = `InvalidWorkspaceOperation` -/
+def join_chan_outer (nl0 nl1 nr0 nr1 : String) (bl0 bl1 br0 br1 : B) : Option (List (String × B)) :=
+  if nl0 = nr0 then
+    if bl0 = br0 then
+      if nl0 = nr1 then
+        if bl0 = br1 then
+          if nl0 = nl1 then
+            none
+          else
+            some [(nl0, bl0), (nl1, bl1)]
+        else
+          if nl1 = nr1 then
+            if bl1 = br1 then
+              if nl0 = nl1 then
+                none
+              else
+                some [(nl0, bl0), (nl1, bl1)]
+            else
+              none
+          else
+            none
+      else
+        if nl1 = nr1 then
+          if bl1 = br1 then
+            if nl0 = nl1 then
+              none
+            else
+              some [(nl0, bl0), (nl1, bl1)]
+          else
+            none
+        else
+          if nl0 = nl1 then
+            none
+          else
+            some [(nl0, bl0), (nl1, bl1), (nr1, br1)]
+    else
+      if nl1 = nr0 then
+        if bl1 = br0 then
+          if nl0 = nr1 then
+            if bl0 = br1 then
+              if nl0 = nl1 then
+                none
+              else
+                some [(nl0, bl0), (nl1, bl1)]
+            else
+              if nl1 = nr1 then
+                if bl1 = br1 then
+                  if nl0 = nl1 then
+                    none
+                  else
+                    some [(nl0, bl0), (nl1, bl1)]
+                else
+                  none
+              else
+                none
+          else
+            if nl1 = nr1 then
+              if bl1 = br1 then
+                if nl0 = nl1 then
+                  none
+                else
+                  some [(nl0, bl0), (nl1, bl1)]
+              else
+                none
+            else
+              if nl0 = nl1 then
+                none
+              else
+                some [(nl0, bl0), (nl1, bl1), (nr1, br1)]
+        else
+          none
+      else
+        none
+  else
+    if nl1 = nr0 then
+      if bl1 = br0 then
+        if nl0 = nr1 then
+          if bl0 = br1 then
+            if nl0 = nl1 then
+              none
+            else
+              some [(nl0, bl0), (nl1, bl1)]
+          else
+            if nl1 = nr1 then
+              if bl1 = br1 then
+                if nl0 = nl1 then
+                  none
+                else
+                  some [(nl0, bl0), (nl1, bl1)]
+              else
+                none
+            else
+              none
+        else
+          if nl1 = nr1 then
+            if bl1 = br1 then
+              if nl0 = nl1 then
+                none
+              else
+                some [(nl0, bl0), (nl1, bl1)]
+            else
+              none
+          else
+            if nl0 = nl1 then
+              none
+            else
+              some [(nl0, bl0), (nl1, bl1), (nr1, br1)]
+      else
+        none
+    else
+      if nl0 = nr1 then
+        if bl0 = br1 then
+          if nl0 = nl1 then
+            none
+          else
+            some [(nl0, bl0), (nl1, bl1), (nr0, br0)]
+        else
+          if nl1 = nr1 then
+            if bl1 = br1 then
+              if nl0 = nl1 then
+                none
+              else
+                some [(nl0, bl0), (nl1, bl1), (nr0, br0)]
+            else
+              none
+          else
+            none
+      else
+        if nl1 = nr1 then
+          if bl1 = br1 then
+            if nl0 = nl1 then
+              none
+            else
+              some [(nl0, bl0), (nl1, bl1), (nr0, br0)]
+          else
+            none
+        else
+          if nl0 = nl1 then
+            none
+          else
+            if nr0 = nr1 then
+              none
+            else
+              some [(nl0, bl0), (nl1, bl1), (nr0, br0), (nr1, br1)]
+
+/-- `_join_channels('left outer', [L0, L1], [R0, R1])` (source sha256 ac659b0e427702f5…): `none` = `InvalidWorkspaceOperation` -/
+def join_chan_leftOuter (nl0 nl1 nr0 nr1 : String) (bl0 bl1 br0 br1 : B) : Option (List (String × B)) :=
+  if nl0 = nr0 then
+    if nl0 = nr1 then
+      some [(nl0, bl0), (nl1, bl1)]
+    else
+      if nl1 = nr1 then
+        some [(nl0, bl0), (nl1, bl1)]
+      else
+        some [(nl0, bl0), (nl1, bl1), (nr1, br1)]
+  else
+    if nl1 = nr0 then
+      if nl0 = nr1 then
+        some [(nl0, bl0), (nl1, bl1)]
+      else
+        if nl1 = nr1 then
+          some [(nl0, bl0), (nl1, bl1)]
+        else
+          some [(nl0, bl0), (nl1, bl1), (nr1, br1)]
+    else
+      if nl0 = nr1 then
+        some [(nl0, bl0), (nl1, bl1), (nr0, br0)]
+      else
+        if nl1 = nr1 then
+          some [(nl0, bl0), (nl1, bl1), (nr0, br0)]
+        else
+          some [(nl0, bl0), (nl1, bl1), (nr0, br0), (nr1, br1)]
+
+/-- `_join_channels('right outer', [L0, L1], [R0, R1])` (source sha256 ac659b0e427702f5…): `none` = `InvalidWorkspaceOperation` -/
+def join_chan_rightOuter (nl0 nl1 nr0 nr1 : String) (bl0 bl1 br0 br1 : B) : Option (List (String × B)) :=
+  if nl0 = nr0 then
+    if nl1 = nr0 then
+      some [(nr0, br0), (nr1, br1)]
+    else
+      if nl1 = nr1 then
+        some [(nr0, br0), (nr1, br1)]
+      else
+        some [(nr0, br0), (nr1, br1), (nl1, bl1)]
+  else
+    if nl0 = nr1 then
+      if nl1 = nr0 then
+        some [(nr0, br0), (nr1, br1)]
+      else
+        if nl1 = nr1 then
+          some [(nr0, br0), (nr1, br1)]
+        else
+          some [(nr0, br0), (nr1, br1), (nl1, bl1)]
+    else
+      if nl1 = nr0 then
+        some [(nr0, br0), (nr1, br1), (nl0, bl0)]
+      else
+        if nl1 = nr1 then
+          some [(nr0, br0), (nr1, br1), (nl0, bl0)]
+        else
+          some [(nr0, br0), (nr1, br1), (nl0, bl0), (nl1, bl1)]
+
+/-- `_join_observations('none', [L0, L1], [R0, R1])` (source sha256 b6d261f37c7fc101…): `none` = `InvalidWorkspaceOperation` -/
+def join_obs_none (nl0 nl1 nr0 nr1 : String) (bl0 bl1 br0 br1 : B) : Option (List (String × B)) :=
+  if nl0 = nr0 then
+    none
+  else
+    if nl1 = nr0 then
+      if nl0 = nr1 then
+        none
+      else
+        if nl0 = nl1 then
+          some [(nl0, bl0), (nl1, bl1), (nr0, br0), (nr1, br1)]
+        else
+          none
+    else
+      if nl0 = nr1 then
+        none
+      else
+        if nl1 = nr1 then
+          if nl0 = nl1 then
+            some [(nl0, bl0), (nl1, bl1), (nr0, br0), (nr1, br1)]
+          else
+            none
+        else
+          some [(nl0, bl0), (nl1, bl1), (nr0, br0), (nr1, br1)]
+
+/-- `_join_observations('outer', [L0, L1], [R0, R1])` (source sha256 b6d261f37c7fc101…): `none` = `InvalidWorkspaceOperation` -/
+def join_obs_outer (nl0 nl1 nr0 nr1 : String) (bl0 bl1 br0 br1 : B) : Option (List (String × B)) :=
+  if nl0 = nr0 then
+    if bl0 = br0 then
+      if nl0 = nr1 then
+        if bl0 = br1 then
+          if nl0 = nl1 then
+            none
+          else
+            some [(nl0, bl0), (nl1, bl1)]
+        else
+          if nl1 = nr1 then
+            if bl1 = br1 then
+              if nl0 = nl1 then
+                none
+              else
+                some [(nl0, bl0), (nl1, bl1)]
+            else
+              none
+          else
+            none
+      else
+        if nl1 = nr1 then
+          if bl1 = br1 then
+            if nl0 = nl1 then
+              none
+            else
+              some [(nl0, bl0), (nl1, bl1)]
+          else
+            none
+        else
+          if nl0 = nl1 then
+            none
+          else
+            some [(nl0, bl0), (nl1, bl1), (nr1, br1)]
+    else
+      if nl1 = nr0 then
+        if bl1 = br0 then
+          if nl0 = nr1 then
+            if bl0 = br1 then
+              if nl0 = nl1 then
+                none
+              else
+                some [(nl0, bl0), (nl1, bl1)]
+            else
+              if nl1 = nr1 then
+                if bl1 = br1 then
+                  if nl0 = nl1 then
+                    none
+                  else
+                    some [(nl0, bl0), (nl1, bl1)]
+                else
+                  none
+              else
+                none
+          else
+            if nl1 = nr1 then
+              if bl1 = br1 then
+                if nl0 = nl1 then
+                  none
+                else
+                  some [(nl0, bl0), (nl1, bl1)]
+              else
+                none
+            else
+              if nl0 = nl1 then
+                none
+              else
+                some [(nl0, bl0), (nl1, bl1), (nr1, br1)]
+        else
+          none
+      else
+        none
+  else
+    if nl1 = nr0 then
+      if bl1 = br0 then
+        if nl0 = nr1 then
+          if bl0 = br1 then
+            if nl0 = nl1 then
+              none
+            else
+              some [(nl0, bl0), (nl1, bl1)]
+          else
+            if nl1 = nr1 then
+              if bl1 = br1 then
+                if nl0 = nl1 then
+                  none
+                else
+                  some [(nl0, bl0), (nl1, bl1)]
+              else
+                none
+            else
+              none
+        else
+          if nl1 = nr1 then
+            if bl1 = br1 then
+              if nl0 = nl1 then
+                none
+              else
+                some [(nl0, bl0), (nl1, bl1)]
+            else
+              none
+          else
+            if nl0 = nl1 then
+              none
+            else
+              some [(nl0, bl0), (nl1, bl1), (nr1, br1)]
+      else
+        none
+    else
+      if nl0 = nr1 then
+        if bl0 = br1 then
+          if nl0 = nl1 then
+            none
+          else
+            some [(nl0, bl0), (nl1, bl1), (nr0, br0)]
+        else
+          if nl1 = nr1 then
+            if bl1 = br1 then
+              if nl0 = nl1 then
+                none
+              else
+                some [(nl0, bl0), (nl1, bl1), (nr0, br0)]
+            else
+              none
+          else
+            none
+      else
+        if nl1 = nr1 then
+          if bl1 = br1 then
+            if nl0 = nl1 then
+              none
+            else
+              some [(nl0, bl0), (nl1, bl1), (nr0, br0)]
+          else
+            none
+        else
+          if nl0 = nl1 then
+            none
+          else
+            if nr0 = nr1 then
+              none
+            else
+              some [(nl0, bl0), (nl1, bl1), (nr0, br0), (nr1, br1)]
+
+/-- `_join_observations('left outer', [L0, L1], [R0, R1])` (source sha256 b6d261f37c7fc101…): `none` = `InvalidWorkspaceOperation` -/
+def join_obs_leftOuter (nl0 nl1 nr0 nr1 : String) (bl0 bl1 br0 br1 : B) : Option (List (String × B)) :=
+  if nl0 = nr0 then
+    if nl0 = nr1 then
+      some [(nl0, bl0), (nl1, bl1)]
+    else
+      if nl1 = nr1 then
+        some [(nl0, bl0), (nl1, bl1)]
+      else
+        some [(nl0, bl0), (nl1, bl1), (nr1, br1)]
+  else
+    if nl1 = nr0 then
+      if nl0 = nr1 then
+        some [(nl0, bl0), (nl1, bl1)]
+      else
+        if nl1 = nr1 then
+          some [(nl0, bl0), (nl1, bl1)]
+        else
+          some [(nl0, bl0), (nl1, bl1), (nr1, br1)]
+    else
+      if nl0 = nr1 then
+        some [(nl0, bl0), (nl1, bl1), (nr0, br0)]
+      else
+        if nl1 = nr1 then
+          some [(nl0, bl0), (nl1, bl1), (nr0, br0)]
+        else
+          some [(nl0, bl0), (nl1, bl1), (nr0, br0), (nr1, br1)]
+
+/-- `_join_observations('right outer', [L0, L1], [R0, R1])` (source sha256 b6d261f37c7fc101…): `none` = `InvalidWorkspaceOperation` -/
+def join_obs_rightOuter (nl0 nl1 nr0 nr1 : String) (bl0 bl1 br0 br1 : B) : Option (List (String × B)) :=
+  if nl0 = nr0 then
+    if nl1 = nr0 then
+      some [(nr0, br0), (nr1, br1)]
+    else
+      if nl1 = nr1 then
+        some [(nr0, br0), (nr1, br1)]
+      else
+        some [(nr0, br0), (nr1, br1), (nl1, bl1)]
+  else
+    if nl0 = nr1 then
+      if nl1 = nr0 then
+        some [(nr0, br0), (nr1, br1)]
+      else
+        if nl1 = nr1 then
+          some [(nr0, br0), (nr1, br1)]
+        else
+          some [(nr0, br0), (nr1, br1), (nl1, bl1)]
+    else
+      if nl1 = nr0 then
+        some [(nr0, br0), (nr1, br1), (nl0, bl0)]
+      else
+        if nl1 = nr1 then
+          some [(nr0, br0), (nr1, br1), (nl0, bl0)]
+        else
+          some [(nr0, br0), (nr1, br1), (nl0, bl0), (nl1, bl1)]
+
 end
 end Pyhf.Gen
